@@ -8,5 +8,6 @@ CONSTANTS Depth = 3
           FullFirst = TRUE
           Starts = {"two", "one", "empty"}
           MaxRow = 3
-          TwoCols = TRUE
+          TwoCols = 6
 INVARIANT TypeOK
+INVARIANT SpecSane
